@@ -370,7 +370,22 @@ def State.taskReject (s : State) (w : Nat) (id : TaskId) (rv : Option Nat) : M (
           let t' := { task with state := .assigned target trv }
           .ok (s1.setTask t', { msgs := [.compute target [computeOne t' (some trv) []]] }, false)
         | none => requeue s0
-      | .waiting .. | .running .. | .runningMN .. | .finished => .error (.panic "task_reject.unreachable")
+      | .runningMN ws =>
+        -- the root worker refuses a multi-node task that was placed on it; it has not started the task
+        -- (fix of F32; before it this state was in the `unreachable!()` arm below)
+        match ws with
+        | [] => .error (.panic "task_reject.ws0")
+        | root :: _ =>
+          if w ≠ root then .ok (s0, {}, false) else
+          match wk.assign with
+          | .sn .. => .ok (s0, {}, false)
+          | .mn _ _ started =>
+            if started then .ok (s0, {}, false) else
+            -- `reset_mn_task_workers`
+            match resetMnChecked s0 id ws with
+            | .error e => .error e
+            | .ok s1 => requeue s1
+      | .waiting .. | .running .. | .finished => .error (.panic "task_reject.unreachable")
 
 /-- `request_enabled` -/
 def State.requestEnabled (s : State) (w rq rv : Nat) : M State :=
